@@ -296,7 +296,8 @@ Proof.
 Qed.
 
 (* ---- the documented exception-safety strength of the Array / SegmentedArray operations (Array.h:181-186,
-        SegmentedArray.h:149-156) as a table, and what is proved for each modelled entry ------------------------- *)
+        SegmentedArray.h:149-156) for ELEVEN operations that have a model, and what is proved for each (the failure half: what holds when an
+        exception escapes).  `documented` records the library's documented strength as commentary next to `proved`; it is not an input of the theorem. *)
 Inductive strength := Strong | Basic | Nothrow.
 Inductive array_op :=
 | OpAddBackGrow | OpReserve | OpShrink | OpSetCountSmaller | OpSetCountInPlace | OpSetCountGrow | OpRemoveBack | OpCopyCtor
@@ -307,7 +308,6 @@ Definition documented (o : array_op) : strength :=
   | OpRemoveBack | OpSetCountSmaller => Nothrow
   | _ => Strong                               (* "All Array functions and constructors have strong exception safety" *)
   end.
-Definition modelled (o : array_op) : bool := true.
 
 Definition proved (o : array_op) : Prop :=
   match o with
